@@ -38,3 +38,154 @@ class write_int:
         datum >= 0 and self._fo.pos == len(self._fo.data)
         and self._fo.data + S.varint(datum) == old.self._fo.data + S.varint(S.zigzag(old.datum)))}
     uses_locals = ["datum"]
+
+    # write_long is a class-level alias of write_int (resolved from the class body each run)
+
+
+@target(M, "BinaryEncoder.write_float")
+class write_float:
+    types = dict(self="BinaryEncoder", datum="py")
+    requires = lambda self, datum: (
+        self._fo.pos == len(self._fo.data)
+        and ((isinstance(datum, float) and S.f_fits_single(datum))
+             or (isinstance(datum, int) and not isinstance(datum, bool)
+                 and S.f_int_fits_double(datum) and S.f_fits_single(S.f_of_int(datum)))))
+    modifies = ["self._fo"]
+    ensures = lambda self, datum, result: (
+        self._fo.data == old.self._fo.data + S.float_bytes(S.num_to_float(datum))
+        and self._fo.pos == len(self._fo.data) and result is None)
+
+
+@target(M, "BinaryEncoder.write_double")
+class write_double:
+    types = dict(self="BinaryEncoder", datum="py")
+    requires = lambda self, datum: (
+        self._fo.pos == len(self._fo.data)
+        and (isinstance(datum, float)
+             or (isinstance(datum, int) and not isinstance(datum, bool) and S.f_int_fits_double(datum))))
+    modifies = ["self._fo"]
+    ensures = lambda self, datum, result: (
+        self._fo.data == old.self._fo.data + S.double_bytes(S.num_to_float(datum))
+        and self._fo.pos == len(self._fo.data) and result is None)
+
+
+@target(M, "BinaryEncoder.write_bytes")
+class write_bytes:
+    types = dict(self="BinaryEncoder", datum="bytes")
+    requires = lambda self, datum: self._fo.pos == len(self._fo.data) and len(datum) <= S.LONG_MAX
+    modifies = ["self._fo"]
+    ensures = lambda self, datum, result: (
+        self._fo.data == old.self._fo.data + S.long_bytes(len(datum)) + datum
+        and self._fo.pos == len(self._fo.data) and result is None)
+
+
+@target(M, "BinaryEncoder.write_utf8")
+class write_utf8:
+    types = dict(self="BinaryEncoder", datum="py")
+    requires = lambda self, datum: (
+        self._fo.pos == len(self._fo.data)
+        and implies(isinstance(datum, str), len(S.utf8(datum)) <= S.LONG_MAX))
+    modifies = ["self._fo"]
+    raises = [R("TypeError", when=lambda self, datum: not isinstance(datum, str),
+                ensures=lambda self: self._fo.data == old.self._fo.data and self._fo.pos == old.self._fo.pos)]
+    ensures = lambda self, datum, result: (
+        self._fo.data == old.self._fo.data + S.long_bytes(len(S.utf8(datum))) + S.utf8(datum)
+        and self._fo.pos == len(self._fo.data) and result is None)
+
+
+@target(M, "BinaryEncoder.write_crc32")
+class write_crc32:
+    types = dict(self="BinaryEncoder", datum="bytes")
+    requires = lambda self, datum: self._fo.pos == len(self._fo.data)
+    modifies = ["self._fo"]
+    ensures = lambda self, datum, result: (
+        self._fo.data == old.self._fo.data + S.be_bytes4(S.crc32(datum))
+        and self._fo.pos == len(self._fo.data) and result is None)
+
+
+@target(M, "BinaryEncoder.write_fixed")
+class write_fixed:
+    types = dict(self="BinaryEncoder", datum="bytes")
+    requires = lambda self, datum: self._fo.pos == len(self._fo.data)
+    modifies = ["self._fo"]
+    ensures = lambda self, datum, result: (
+        self._fo.data == old.self._fo.data + datum
+        and self._fo.pos == len(self._fo.data) and result is None)
+
+
+@target(M, "BinaryEncoder.write_enum")
+class write_enum:
+    types = dict(self="BinaryEncoder", index="int")
+    requires = lambda self, index: S.LONG_MIN <= index <= S.LONG_MAX and self._fo.pos == len(self._fo.data)
+    modifies = ["self._fo"]
+    ensures = lambda self, index, result: (
+        self._fo.data == old.self._fo.data + S.long_bytes(index)
+        and self._fo.pos == len(self._fo.data) and result is None)
+
+
+@target(M, "BinaryEncoder.write_item_count")
+class write_item_count:
+    types = dict(self="BinaryEncoder", length="int")
+    requires = lambda self, length: S.LONG_MIN <= length <= S.LONG_MAX and self._fo.pos == len(self._fo.data)
+    modifies = ["self._fo"]
+    ensures = lambda self, length, result: (
+        self._fo.data == old.self._fo.data + S.long_bytes(length)
+        and self._fo.pos == len(self._fo.data) and result is None)
+
+
+@target(M, "BinaryEncoder.write_array_end")
+class write_array_end:
+    types = dict(self="BinaryEncoder")
+    requires = lambda self: self._fo.pos == len(self._fo.data)
+    modifies = ["self._fo"]
+    ensures = lambda self, result: (
+        self._fo.data == old.self._fo.data + b"\x00"
+        and self._fo.pos == len(self._fo.data) and result is None)
+
+
+@target(M, "BinaryEncoder.write_map_end")
+class write_map_end:
+    types = dict(self="BinaryEncoder")
+    requires = lambda self: self._fo.pos == len(self._fo.data)
+    modifies = ["self._fo"]
+    ensures = lambda self, result: (
+        self._fo.data == old.self._fo.data + b"\x00"
+        and self._fo.pos == len(self._fo.data) and result is None)
+
+
+@target(M, "BinaryEncoder.write_index")
+class write_index:
+    types = dict(self="BinaryEncoder", index="int", schema="py")
+    requires = lambda self, index: S.LONG_MIN <= index <= S.LONG_MAX and self._fo.pos == len(self._fo.data)
+    modifies = ["self._fo"]
+    ensures = lambda self, index, result: (
+        self._fo.data == old.self._fo.data + S.long_bytes(index)
+        and self._fo.pos == len(self._fo.data) and result is None)
+
+
+@target(M, "BinaryEncoder.write_array_start")
+class write_array_start:
+    types = dict(self="BinaryEncoder")
+    modifies = []
+    ensures = lambda self, result: result is None
+
+
+@target(M, "BinaryEncoder.write_map_start")
+class write_map_start:
+    types = dict(self="BinaryEncoder")
+    modifies = []
+    ensures = lambda self, result: result is None
+
+
+@target(M, "BinaryEncoder.end_item")
+class end_item:
+    types = dict(self="BinaryEncoder")
+    modifies = []
+    ensures = lambda self, result: result is None
+
+
+@target(M, "BinaryEncoder.flush")
+class flush:
+    types = dict(self="BinaryEncoder")
+    modifies = []
+    ensures = lambda self, result: result is None
